@@ -137,11 +137,9 @@ def render(recipe):
             elif kind == 'spawn':
                 fi, args = stmt[1], stmt[2]
                 fn = funcs[fi]
-                emit(fidx, '%s_tn = "T%d_%%d" %% NEXT()' % (pad, sid))
-                rec(emit(fidx, '%s_t = threading.Thread(target=RUN, args=(lambda: %s, _tn), name=_tn)' % (
-                    pad, call_text(fi, args))))
-                emit(fidx, '%s_t.start()' % pad)
-                emit(fidx, '%s_t.join()' % pad)
+                # start + join happen inside the harness helper with the parent's tracing suspended: while the child runs
+                # the parent delivers no trace events, so at most one program thread produces events at any time
+                rec(emit(fidx, '%s_t = SPAWN(lambda: %s, "T%d_%%d" %% NEXT())' % (pad, call_text(fi, args), sid)))
             elif kind == 'pass':
                 rec(emit(fidx, '%spass' % pad))
             else:
@@ -250,6 +248,17 @@ def run_program(recipe, rendered, tracer=None, values=None, register_sources=Tru
             res.thread_results[label] = ['exc', describe_exc(e, res)]
         res.trace_after[label] = sys.gettrace()
 
+    def SPAWN(fn, name):
+        t = threading.Thread(target=RUN, args=(fn, name), name=name)
+        old_trace = sys.gettrace()
+        sys.settrace(None)
+        try:
+            t.start()
+            t.join()
+        finally:
+            sys.settrace(old_trace)
+        return name
+
     mods = []
     import types
     for fidx, f in enumerate(files):
@@ -262,6 +271,7 @@ def run_program(recipe, rendered, tracer=None, values=None, register_sources=Tru
         m.mark = mark
         m.tick = tick
         m.NEXT = NEXT
+        m.SPAWN = SPAWN
         m.RUN = RUN
         m.V = values if values is not None else []
         m.CustomExc = CustomExc
